@@ -186,3 +186,29 @@ def desugar_effectful_dictcomps(fnode, is_contract_function):
 
     fnode.body = rewrite_block(fnode.body)
     return count[0]
+
+
+_CLASS_INDEX = {}
+
+
+def class_index(repo):
+    """class name -> (relative module path, ClassDef) for src/sedpack"""
+    if repo in _CLASS_INDEX:
+        return _CLASS_INDEX[repo]
+    idx = {}
+    base = os.path.join(repo, "src")
+    for dp, _, fns in os.walk(os.path.join(base, "sedpack")):
+        for fn in sorted(fns):
+            if not fn.endswith(".py"):
+                continue
+            path = os.path.join(dp, fn)
+            try:
+                with open(path, encoding="utf-8") as f:
+                    tree = ast.parse(f.read())
+            except Exception:  # noqa: BLE001
+                continue
+            for n in tree.body:
+                if isinstance(n, ast.ClassDef):
+                    idx.setdefault(n.name, (os.path.relpath(path, base), n))
+    _CLASS_INDEX[repo] = idx
+    return idx
